@@ -13,3 +13,8 @@ register("C03", ["c03", "phase_gate"],
          "Static dominance analysis over MIR-as-built (before the coroutine transform, so `backup().await?; send()` is a straight path). Decides on ALL paths - hence for every crash point - that each send/sign of a ReplicaCommit/ReplicaTimeout/ReplicaNewView in bft is dominated by the success of the awaited durable write (backup_state -> EngineManager::set_state -> dyn EngineInterface::set_state), that nothing in the persisted set changes between the write and the send, that the vote recorded before the backup is the vote signed, that backup and restore agree field by field, and the phase gate/view monotonicity tables. Does not execute the code; durability of the execution layer's set_state is trusted.",
          ["EngineInterface::set_state is durable and atomic (trusted interface)", "&mut self exclusivity of the replica state machine (Rust borrow rules)"],
          TRUSTED)
+
+register("C05", ["c05", "phase_gate"],
+         "Static guard-table analysis by finite abstraction: for each decision of the replica (certificate adoption, stale-message gates, new-view catch-up, leader check) atoms are declared on types and field names (cmp(msg.view, self.view), held certificate None/Some, cmp of certificate views, self.phase) and for every valuation the CFG of the handler (MIR-as-built) is walked following only consistent edges; the set of valuations reaching the adoption/processing/vote site is compared with the table stated in the property and spec/informal-spec/replica.rs. Plus exact who-may-write sets of the five view-change fields and term checks on emitted justifications. Conformance of every reaction in every reachable state is not decided.",
+         ["certificates passed to process_*_qc were verified by the caller (C04.9)", "&mut self exclusivity of the replica"],
+         TRUSTED)
